@@ -1612,12 +1612,15 @@ def authorised(case, keys, principal: str, now) -> Tuple[bool, str]:
     return ok, 'cert-' + why
 
 
+# (the last three EXTEND other names: a pattern has to match the whole name)
 SIGNER_NAMES = ['alice@example.com', 'bob@example.com', 'carol',
-                'dave@evil.org', 'Alice@example.com']
+                'dave@evil.org', 'Alice@example.com',
+                'alice@example.com.evil.net', 'caroline', 'xcarol']
 PRINCIPAL_PATS = SIGNER_NAMES + ['*', '*@example.com', 'al?ce@example.com',
                                  'bob*', '!bob@example.com', '!*@evil.org',
                                  '!*', 'c?rol', '*@*']
-NAMESPACES = ['file', 'git', 'email', 'f', 'File', 'my ns', 'ün']
+NAMESPACES = ['file', 'git', 'email', 'f', 'File', 'my ns', 'ün',
+              'file-upload', 'gitolite', 'xgit']
 NS_PATS = ['file', 'git', 'email', 'f*', '*', '!git', 'fil?', 'my ns',
            '!*', 'ün']
 SIG_EPOCHS = [86400 * 11000, 86400 * 19000, 1700000000, 1700000001,
@@ -1732,6 +1735,15 @@ def _run_sshsig_model(case) -> CaseResult:
     hname = case['hash']
     labels = {'kt:' + signer.kt, 'hash:' + hname,
               'signer:' + ('cert' if cert_blob else 'key')}
+    pats = [p.lstrip('!') for e in case['entries']
+            if e.get('junk') is None
+            for p in list(e['principals']) + list(e['namespaces'] or [])]
+
+    if any(v != p and v.startswith(p.rstrip('*')) and not p.endswith('*')
+           and p for p in pats for v in list(case['queries']) + [ns]):
+        # a value that merely BEGINS with what a pattern matches
+        labels.add('value-extends-pattern')
+
     KWCASE_SEEN[0] = False
     allowed = allowed_text(case, keys)
     if KWCASE_SEEN[0]:
@@ -2039,8 +2051,9 @@ def sshsig_model_strategy(tier: str):
 # differential families against ssh-keygen (OpenSSH 9.2)
 
 _ENV = dict(os.environ, TZ='UTC', LC_ALL='C')
-KG_NAMES = ['alice@example.com', 'bob@example.com', 'carol', 'dave@evil.org']
-KG_NAMESPACES = ['file', 'git', 'email', 'f', 'File']
+KG_NAMES = ['alice@example.com', 'bob@example.com', 'carol', 'dave@evil.org',
+            'alice@example.com.evil.net', 'caroline']
+KG_NAMESPACES = ['file', 'git', 'email', 'f', 'File', 'files', 'xgit']
 KG_NS_PATS = ['file', 'git', 'email', 'f*', '*', '!git', 'fil?', '!*']
 KG_PATS = KG_NAMES + ['*', '*@example.com', 'al?ce@example.com', 'bob*',
                       '!bob@example.com', '!*@evil.org', '!*', 'c?rol']
@@ -2549,7 +2562,7 @@ FAMILIES = [
                              'auth:cert-ok', 'auth:cert-expired',
                              'auth:cert-not-yet-valid', 'auth:no-entry',
                              'tz:PST8', 'tz:JST-9', 'tz:local-instants',
-                             'keyword-case',
+                             'keyword-case', 'value-extends-pattern',
                              'auth:no-ca-entry', 'edit:bytes',
                              'edit:namespace', 'edit:hash', 'edit:message',
                              'is-hashed', 'junk-lines']}),
